@@ -20,6 +20,7 @@ pub const A_BYTES: i64 = 4; // bytes_read accounting, frame count monotone (C12)
 pub const A_FINAL: i64 = 8; // final state == one-shot game (C12)
 pub const A_ONESHOT: i64 = 16; // one-shot read compared with the model (C03/C04)
 pub const A_OPEN: i64 = 32; // the input is a prefix of an event history (may stop inside a frame)
+pub const A_VIA_SLPP: i64 = 128; // the finished game is also looked at after a trip through .slpp (C13)
 pub const A_LASTONLY: i64 = 64; // look at the state only after the last event (predecessors were checked as their own states)
 
 pub fn sched_of(p: &P) -> Sched {
@@ -266,6 +267,23 @@ pub fn o_model(input: &[u8], p: &P) -> Out {
 				compare_transposed(&g.frames, i, &t)?;
 				let t2 = GameTrait::frame(&g, i);
 				transposed_equal(&t, &t2).map_err(|m| ("frame-accessor".to_string(), format!("Game::frame({}) differs from transpose_one: {}", i, m)))?;
+			}
+		}
+		if aspects & A_VIA_SLPP != 0 && !g.frames.ports.is_empty() {
+			// the finished representation as loaded from an archive: same rows, and rows == its own columns
+			let g1 = read_slp(input, false, false).map_err(|f| ("reread-failed".to_string(), f.describe()))?;
+			let arch = write_slpp(g1, (xx(input) % 3) as u8).map_err(|f| (format!("slpp-write-failed:{}", f.key()), f.describe()))?;
+			let g2 = read_slpp(&arch, false).map_err(|f| (format!("slpp-read-failed:{}", f.key()), f.describe()))?;
+			if g2.frames.len() != g.frames.len() {
+				return Err(("slpp-rows".into(), format!("{} rows after .slpp, {} before", g2.frames.len(), g.frames.len())));
+			}
+			for i in 0..g2.frames.len() {
+				let t = g2.frames.transpose_one(i, g2.start.slippi.version);
+				compare_transposed(&g2.frames, i, &t).map_err(|(k, m)| (format!("via-slpp:{}", k), format!("game loaded from .slpp: {}", m)))?;
+				let t0 = g.frames.transpose_one(i, g.start.slippi.version);
+				transposed_equal(&t0, &t).map_err(|m| ("via-slpp:row".to_string(), format!("row {} of the game loaded from .slpp differs from the row of the game read from .slp: {}", i, m)))?;
+				let t2 = GameTrait::frame(&g2, i);
+				transposed_equal(&t, &t2).map_err(|m| ("via-slpp:frame-accessor".to_string(), format!("Game::frame({}) differs from transpose_one: {}", i, m)))?;
 			}
 		}
 		Ok(())
